@@ -592,7 +592,8 @@ class FileSet:
             return self.read(filename)
 
     def __len__(self):
-        return sum(1 for _ in self.find())
+        # An empty fileset has the length 0 (find would raise NoFilesError)
+        return sum(1 for _ in self.find(no_files_error=False, sort=False))
 
     def __setitem__(self, key, value):
         if isinstance(key, (tuple, list)):
